@@ -50,7 +50,7 @@ PRE_KINDS = ["data_badcrc_short", "data_badcrc_8", "data_truncated", "data_overl
              "sof", "stray_data", "garbage", "empty", "setup_token_only"]
 REQUIRED_BINS = (["mode_sa_hs", "mode_sa_fs", "mode_dev_fs12", "mode_dev_fs60", "valid_setup", "valid_setup_back_to_back",
                   "setup_wrong_len_short", "setup_wrong_len_long", "setup_len_7", "setup_len_9", "setup_len_0", "setup_bad_crc",
-                  "setup_truncated", "setup_tail", "data8_without_setup_token", "own_token_between", "foreign_token_between",
+                  "setup_truncated", "setup_tail", "setup_data_bad_pid", "data8_without_setup_token", "own_token_between", "foreign_token_between",
                   "sof_between", "junk_between", "tight_gap_before_setup", "nonzero_address", "foreign_addr_one_bit",
                   "payload_single_bit", "rx_gaps", "tx_backpressure"]
                  + ["pre_" + k for k in PRE_KINDS])
@@ -120,6 +120,9 @@ class Script:
                 return a
 
     def add(self, kind, data, *, abort=None, gap=None, respond=False, tag=None):
+        sent = bytes(data) if abort is None else bytes(data)[:abort]
+        if U.classify(sent)["kind"] == "data":
+            respond = True      # somebody on the bus answers a complete data packet: a host leaves the window free
         self.steps.append({"kind": kind, "data": bytes(data), "abort": abort, "gap": gap, "respond": respond, "tag": tag})
 
     # -- damaged / unrelated packets -------------------------------------------------------------
@@ -206,6 +209,10 @@ class Script:
             # a complete valid 8-byte packet followed by more bytes inside the same packet
             p = U.data(U.DATA0, _payload(rng, 8)) + bytes(rng.randrange(256) for _ in range(rng.randint(1, 3)))
             self.add("setup_data_tail", p, gap="td", respond=True, tag="setup_tail")
+        elif variant == "bad_pid_data":
+            p = bytearray(U.data(U.DATA0, _payload(rng, 8)))
+            p[0] ^= 1 << rng.randrange(4, 8)            # PID check nibble damaged: not a data packet at all
+            self.add("setup_data_badpid", bytes(p), gap="td", respond=True, tag="setup_data_bad_pid")
         elif variant == "other_pid":
             self.add("setup_data_otherpid", U.data(rng.choice([U.DATA1, U.DATA2, U.MDATA]), _payload(rng, 8)), gap="td", respond=True)
         elif variant == "between":
@@ -222,7 +229,7 @@ class Script:
                 n0 = len(self.steps)
                 self.filler(k)
                 for s in self.steps[n0:]:
-                    s["gap"], s["respond"], s["tag"] = "td", False, "junk_between"
+                    s["gap"], s["tag"] = "td", "junk_between"
             self.add("setup_data_after_between", U.data(U.DATA0, _payload(rng, 8)), gap="td", respond=True)
         elif variant == "no_data":
             pass
@@ -231,7 +238,7 @@ class Script:
 
     def build(self, nblocks):
         rng = self.rng
-        variants = ["good"] * 10 + ["wrong_len"] * 4 + ["bad_crc"] * 2 + ["truncated", "tail", "other_pid", "no_data", "stray8", "stray8"] + ["between"] * 3
+        variants = ["good"] * 10 + ["wrong_len"] * 4 + ["bad_crc"] * 2 + ["truncated", "tail", "other_pid", "bad_pid_data", "no_data", "stray8", "stray8"] + ["between"] * 3
         for _ in range(nblocks):
             r = rng.random()
             if r < 0.72:
@@ -406,7 +413,7 @@ def _poisoned(pkts, infos, idx):
     j = idx - 1
     while j >= 0 and between <= 10:
         raw = pkts[j]["data"]
-        if infos[j]["kind"] == "malformed" and infos[j].get("pid") in U.DATA_PIDS and len(raw) >= 2:
+        if infos[j]["kind"] == "malformed" and infos[j].get("pid") in U.DATA_PIDS:
             if (len(raw) - 1) + between <= 10:
                 return True
         between += len(raw)
@@ -418,10 +425,16 @@ def judge(res, mode, own, pkts, recs, acks, last_cycle):
     device, timing, min_gap, max_resp, _ = MODES[mode]
     infos = [U.classify(p["data"]) for p in pkts]
     out = []            # (mechanism, detail)
-    pending = False
-    between = None      # what cleared/blurred pending since the SETUP token (for bins)
+    # reference state.  open_setup: the last well-formed token addressed to us was SETUP/ep0 and no 8-byte CRC-valid data
+    # packet has followed yet.  other_token: a well-formed token to another address ('foreign') or a SOF ('sof') came since.
+    # junk: something that is neither idle nor a well-formed token came since (=> not judged).  repeat: the SETUP token
+    # arrived while a SETUP was already open (classifier only).
+    open_setup, other_token, junk = False, None, False
+    # classifier state (names the open findings, never decides a verdict): cls_open = the decoder may still be waiting for
+    # SETUP data (SETUP token seen, no report observed and no CRC-valid data packet of <= 8 bytes outside a "poisoned"
+    # context since); repeat = the SETUP token of the current transaction arrived while cls_open.
+    cls_open, repeat = False, False
     ri = ai = 0
-    prev_valid_setup_end = None
     for idx, (p, info) in enumerate(zip(pkts, infos)):
         if p["end"] is None:
             out.append(("harness_packet_without_end", "packet %d" % idx))
@@ -442,13 +455,13 @@ def judge(res, mode, own, pkts, recs, acks, last_cycle):
         kind = info["kind"]
         if p["tag"]:
             res.bin(p["tag"])
+        pending = (open_setup and not other_token and not junk) or (None if (open_setup and junk and not other_token) else False)
         ctx = "pkt#%d %s %s pending=%s own=%d mode=%s prev=%s" % (
-            idx, p["kind"], p["data"].hex(), pending, own, mode, [(q["kind"], q["data"].hex()) for q in pkts[max(0, idx - 3):idx]])
+            idx, p["kind"], p["data"].hex(), pending, own, mode, [(q["kind"], q["data"].hex()) for q in pkts[max(0, idx - 4):idx]])
         if _is_data_pid(info, p["data"]):
             valid8 = kind == "data" and len(info["payload"]) == 8
             ambiguous = pending is None or (pending is True and valid8 and info["pid"] != U.DATA0)
             poisoned = _poisoned(pkts, infos, idx)
-            suffix = "_after_damaged_data_packet" if poisoned else ""
             if ambiguous:
                 res.unjudged += 1
             elif pending is True and valid8:
@@ -458,35 +471,53 @@ def judge(res, mode, own, pkts, recs, acks, last_cycle):
                     pk = pkts[idx - 2]["kind"]
                     if pk in PRE_KINDS:
                         res.bin("pre_" + pk)
-                    elif pk in ("foreign_setup_data",):
+                    elif pk == "foreign_setup_data":
                         res.bin("pre_foreign_setup_txn")
-                    elif pk in ("own_out_data",):
+                    elif pk == "own_out_data":
                         res.bin("pre_own_out_txn")
                     elif pk == "setup_data_good":
                         res.bin("valid_setup_back_to_back")
+                    if pk.startswith("setup_data_") and pk != "setup_data_good":
+                        res.bin("retry_after_rejected_setup_data")
+                if repeat:
+                    res.bin("setup_token_repeated")
                 if len(my_recs) == 0:
-                    out.append(("setup_missed" + suffix, ctx))
-                elif len(my_recs) > 1:
-                    out.append(("setup_reported_twice", ctx + " strobes=%s" % [c for c, _ in my_recs]))
-                if my_recs:
+                    # classifier for the open findings (history pattern only; see module docstring)
+                    if poisoned and repeat:
+                        mech = "setup_missed_after_damaged_setup_data"
+                    elif poisoned:
+                        mech = "setup_missed_after_damaged_data_packet"
+                    elif repeat:
+                        mech = "setup_missed_after_unfinished_setup"
+                    else:
+                        mech = "setup_missed"
+                    out.append((mech, ctx))
+                    if my_acks:
+                        out.append(("setup_acked_but_not_reported", ctx + " acks=%s" % my_acks))
+                else:
+                    if len(my_recs) > 1:
+                        out.append(("setup_reported_twice", ctx + " strobes=%s" % [c for c, _ in my_recs]))
                     res.event("fields_compared")
                     exp = expected_fields(info["payload"])
                     if my_recs[0][1] != exp:
                         out.append(("setup_fields_wrong", ctx + " got(recipient,type,in,request,value,index,length)=%s expected=%s" % (my_recs[0][1], exp)))
-                if len(my_acks) == 0:
-                    out.append(("setup_not_acked" + suffix, ctx))
-                elif len(my_acks) > 1:
-                    out.append(("setup_acked_twice", ctx + " acks=%s end=%d" % (my_acks, w0)))
-                if my_acks:
-                    res.event("ack_timing_checked")
-                    d = my_acks[0] - w0
-                    if d < min_gap:
-                        out.append(("setup_ack_too_early", ctx + " ack %d cycles after end of packet, minimum %d" % (d, min_gap)))
-                    elif d > max_resp:
-                        out.append(("setup_ack_late", ctx + " ack %d cycles after end of packet, window %d" % (d, max_resp)))
+                    if len(my_acks) == 0:
+                        out.append(("setup_not_acked", ctx))
+                    elif len(my_acks) > 1:
+                        out.append(("setup_acked_twice", ctx + " acks=%s end=%d" % (my_acks, w0)))
+                    if my_acks:
+                        res.event("ack_timing_checked")
+                        d = my_acks[0] - w0
+                        if d < min_gap:
+                            out.append(("setup_ack_too_early", ctx + " ack %d cycles after end of packet, minimum %d" % (d, min_gap)))
+                        elif d > max_resp:
+                            out.append(("setup_ack_late", ctx + " ack %d cycles after end of packet, window %d" % (d, max_resp)))
             else:
                 res.event("judged_expect_silence")
-                if pending is True:
+                if open_setup and other_token:
+                    why = "after_intervening_%s_token" % other_token
+                    res.bin("judged_data_after_%s_token" % other_token)
+                elif open_setup:
                     if kind == "data":
                         n = len(info["payload"])
                         res.bin("setup_wrong_len_short" if n < 8 else "setup_wrong_len_long")
@@ -497,18 +528,21 @@ def judge(res, mode, own, pkts, recs, acks, last_cycle):
                         why = "bad_crc"
                 else:
                     why = "without_setup_token"
-                    if between in ("foreign", "sof"):
-                        why = "after_intervening_%s_token" % between
+                if poisoned and kind == "data" and not valid8:
+                    # open finding: the stuck deserializer reports a concatenation of packets
+                    why = "after_damaged_data_packet"
                 if my_recs:
-                    out.append((("spurious_setup" + suffix) if poisoned else "setup_reported_" + why, ctx + " fields=%s" % (my_recs[0][1],)))
-                if my_acks:
-                    out.append((("spurious_ack" + suffix) if poisoned else "ack_" + why, ctx + " acks=%s end=%d" % (my_acks, w0)))
+                    out.append(("setup_reported_" + why, ctx + " fields=%s" % (my_recs[0][1],)))
+                elif my_acks:
+                    out.append(("ack_" + why, ctx + " acks=%s end=%d" % (my_acks, w0)))
             # state after a data packet
-            if kind == "data":
-                pending = False
-            elif pending is True:
-                pending = None
-            between = None
+            if open_setup and not other_token:
+                if valid8 and my_recs:
+                    open_setup, junk = False, False
+                else:
+                    junk = True         # also after a miss: the reference no longer knows whether the decoder still waits
+            if my_recs or (kind == "data" and len(info["payload"]) <= 8 and not poisoned):
+                cls_open = False
         else:
             if my_recs:
                 out.append(("setup_reported_without_data_packet", ctx))
@@ -517,16 +551,17 @@ def judge(res, mode, own, pkts, recs, acks, last_cycle):
                 out.append(("ack_without_data_packet", ctx + " acks=%s" % my_acks))
             if kind == "token" and info["addr"] == own:
                 if info["pid"] == U.SETUP and info["endp"] == 0:
-                    pending, between = True, None
+                    repeat, cls_open = cls_open, True
+                    open_setup, other_token, junk = True, None, False
                 else:
-                    pending, between = False, "own"
+                    open_setup, other_token, junk = False, None, False
+                    cls_open = repeat = False
             elif kind == "token" or kind == "sof":
-                if pending is True or pending is None:
-                    between = "foreign" if kind == "token" else "sof"
-                pending = False
-            else:
-                if pending is True:
-                    pending = None
+                if open_setup:
+                    t = "foreign" if kind == "token" else "sof"
+                    other_token = t if other_token in (None, t) else "foreign"
+            elif open_setup:
+                junk = True
     while ri < len(recs):
         out.append(("setup_reported_unattributed", "strobe at %d" % recs[ri][0]))
         ri += 1
